@@ -36,6 +36,7 @@ def dispatch1 (op : String) (j : Json) : R Json :=
   | "outputVcf" => hOutputVcf j
   | "transform" => hTransform j
   | "hapParse" => hHapParse j
+  | "hapHeader" => hHapHeader j
   | "hapQuery" => hHapQuery j
   | "gtStore" => hGtStore j
   | "gtRestrict" => hGtRestrict j
